@@ -25,12 +25,16 @@ EXTENDS Naturals, Integers, Sequences, FiniteSets, TLC, Json, FiniteSetsExt, Seq
 
 CONSTANTS MaxViols,     \* violations in the concatenated list
           MaxVariants,  \* rendering variants they come from
-          Wide          \* FALSE: 3 positions x 3 kinds; TRUE: 4 positions x 5 kinds x 2 descriptions
+          Profile       \* "narrow": 3 positions x {A, A+fix, PRS};  "srcfix": 3 positions x {A+fix, A+fix with a
+                        \* source fix, B};  "wide": 4 positions x all 5 kinds x 2 descriptions
 
-Positions == IF Wide THEN {<<1, 1>>, <<1, 2>>, <<2, 1>>, <<2, 2>>} ELSE {<<1, 1>>, <<1, 2>>, <<2, 1>>}
-\* kind = (code, fix-edit id); PRS stands for the non-lint errors (no fixes, signature without edits)
-KindSet   == {<<"A", 0>>, <<"A", 1>>, <<"PRS", 0>>} \cup (IF Wide THEN {<<"B", 0>>, <<"A", 2>>} ELSE {})
-Descs     == IF Wide THEN {1, 2} ELSE {1}
+Positions == IF Profile = "wide" THEN {<<1, 1>>, <<1, 2>>, <<2, 1>>, <<2, 2>>} ELSE {<<1, 1>>, <<1, 2>>, <<2, 1>>}
+\* kind = (code, fix-edit id); PRS stands for the non-lint errors (no fixes, signature without edits);
+\* fix 2 has the same edit text as fix 1 plus a source fix (an edit inside template code)
+KindSet   == CASE Profile = "narrow" -> {<<"A", 0>>, <<"A", 1>>, <<"PRS", 0>>}
+               [] Profile = "srcfix" -> {<<"A", 1>>, <<"A", 2>>, <<"B", 0>>}
+               [] OTHER              -> {<<"A", 0>>, <<"A", 1>>, <<"A", 2>>, <<"B", 0>>, <<"PRS", 0>>}
+Descs     == IF Profile = "wide" THEN {1, 2} ELSE {1}
 Shape     == {[code |-> k[1], fix |-> k[2], line |-> p[1], pos |-> p[2], desc |-> d]
                  : k \in KindSet, p \in Positions, d \in Descs}
 
